@@ -129,6 +129,8 @@ impl DebugSession {
     }
 
     fn next_seq(&mut self) -> i64 {
+        #[cfg(feature = "verif")]
+        let _post_seq = crate::verif::sched::PointOnDrop("session:post_seq");
         self.server_seq
             .fetch_add(1, std::sync::atomic::Ordering::Relaxed)
     }
@@ -556,6 +558,8 @@ impl DebugSession {
                         #[cfg(feature = "verif")]
                         crate::verif::sched::point("fwd_out:pre_seq");
                         let s = seq.fetch_add(1, std::sync::atomic::Ordering::Relaxed);
+                        #[cfg(feature = "verif")]
+                        crate::verif::sched::point("fwd_out:post_seq");
 
                         #[cfg(feature = "verif")]
                         crate::verif::sched::point("fwd_out:pre_lock");
@@ -593,6 +597,8 @@ impl DebugSession {
                         #[cfg(feature = "verif")]
                         crate::verif::sched::point("fwd_err:pre_seq");
                         let s = seq.fetch_add(1, std::sync::atomic::Ordering::Relaxed);
+                        #[cfg(feature = "verif")]
+                        crate::verif::sched::point("fwd_err:post_seq");
 
                         #[cfg(feature = "verif")]
                         crate::verif::sched::point("fwd_err:pre_lock");
